@@ -115,7 +115,7 @@ def run_history(flavour, ops, cells=False):
                     return None
                 k, f, g, ns = s.live[j]
                 try:
-                    v = g(a)
+                    v = g.call(a)[0] if (len(op) > 3 and op[3]) else g(a)     # .call(): forced execution, result stored
                 except Exception as e:
                     probs.append("step %d: calling definition #%d (v%d) raised %s: %s" % (i, j, k, type(e).__name__, e))
                     break
@@ -180,8 +180,9 @@ def ob_hist(k1: int, x1: int, a1: int, k2: int, x2: int, a2: int, k3: int, x3: i
         return H.verdict(not probs)
 
 
-def ob_two_defs(ka: int, kb: int, j1: int, j2: int, j3: int, a1: int, a2: int, a3: int) -> bool:
+def ob_two_defs(ka: int, kb: int, j1: int, j2: int, j3: int, a1: int, a2: int, a3: int, fc: int) -> bool:
     """
+    pre: 0 <= fc <= 3
     pre: 0 <= ka <= 2 and 0 <= kb <= 2
     pre: 0 <= j1 <= 1 and 0 <= j2 <= 1 and 0 <= j3 <= 1
     pre: 0 <= a1 <= 1 and 0 <= a2 <= 1 and 0 <= a3 <= 1
@@ -193,8 +194,9 @@ def ob_two_defs(ka: int, kb: int, j1: int, j2: int, j3: int, a1: int, a2: int, a
     js = [H.select(j, 0, 1) for j in (j1, j2, j3)]
     as_ = [H.select(a, 0, 1) for a in (a1, a2, a3)]
     H.known("KF-C12-stale-inmemory-shortcut", (js[0] > js[1]) or (js[1] > js[2]) or (js[0] > js[2]))
+    fcv = H.select(fc, 0, 3)              # which of the three calls (if any) is a forced MemorizedFunc.call()
     with H.native():
-        ops = [("def", va), ("def", vb)] + [("call", j, a) for j, a in zip(js, as_)]
+        ops = [("def", va), ("def", vb)] + [("call", j, a, fcv == i + 1) for i, (j, a) in enumerate(zip(js, as_))]
         probs = run_history(H.P("flavour"), ops, cells=True)
         for m in probs or []:
             H.note("%r: %s" % (ops, m))
@@ -404,7 +406,7 @@ def obligations(tier, seed):
         if flavour in ("module", "nested"):
             obs.append({"name": "two_defs/%s" % flavour, "fn": "ob_two_defs", "mode": "S",
                         "kf": ["KF-C12-stale-inmemory-shortcut"], "params": {"flavour": flavour}, "timeout": 600,
-                        "bounds": "define va, define vb (own source units), three calls of either live definition, args 0..1"})
+                        "bounds": "define va, define vb (own source units), three calls of either live definition (at most one of them a forced .call()), args 0..1"})
         if flavour in ("module", "prefix"):
             obs.append({"name": "two_stores/%s" % flavour, "fn": "ob_two_stores", "mode": "S", "params": {"flavour": flavour},
                         "timeout": 300, "bounds": "two cache directories in one process: version k0 cached in B (and A), edit to "
